@@ -80,7 +80,7 @@ def dedupSorted (xs : List Nat) : List Nat :=
 
 /-- canonical name: with several pins for one (cid, mode) the harness prints the candidate set -/
 def nameTok (s : St) (idx : Idx) (c : Nat) (got : Nat) : String :=
-  let cands := dedupSorted ((idx.search c).filterMap fun id => (AMap.find s.store.recs id).map (·.name))
+  let cands := dedupSorted ((idx.search c).filterMap fun id => (RMap.find s.store.recs id).map (·.name))
   if cands.length > 1 ∧ cands.contains got then "|".intercalate (cands.map toString) else toString got
 
 def bTok (s : St) (names : Bool) (c : Nat) : BRes → String
